@@ -46,7 +46,7 @@ TIERS = {
     "quick": {"runs": 64, "budget_s": 420, "chunk": 1, "selftest": 6, "per_run_timeout": 900},
     "thorough": {"runs": 0, "budget_s": 1800, "chunk": 1, "selftest": 12, "per_run_timeout": 900},
 }
-MIN_SECONDS = 300.0
+MIN_SECONDS = 150.0
 MIN_TESTS = 40
 MIN_PER_CLS = 2
 
